@@ -225,18 +225,18 @@ REGISTRY = {
         'rule': 'comment / trailing_comment placements, adversarial texts; eval == uncommented value, same ast, words preserved',
     },
     'C10': {
-        'theorems': ['PP.Limits.limits_tokens', 'PP.Limits.shown_canon', 'PP.Tok.shown_ok', 'PP.Tok.wf_shown', 'PP.C03.output_tokens',
+        'theorems': ['PP.Limits.limits_tokens', 'PP.Limits.limit_that_does_not_bite', 'PP.Limits.shown_canon', 'PP.Tok.shown_ok', 'PP.Tok.wf_shown', 'PP.C03.output_tokens',
                      'PP.C04.sound_pformat', 'PP.C10.truncation_text', 'PP.C10.no_limit', 'PP.C10.large_limit'],
-        'modules': VALUE_MODULES + ['PP.Props.Values', 'PP.Spec.Tokens', 'PP.Proofs.Toks', 'PP.Proofs.ToksStr', 'PP.Proofs.ToksComb', 'PP.Proofs.ToksVal', 'PP.Proofs.Shown', 'PP.Props.C03', 'PP.Props.Limits'],
+        'modules': VALUE_MODULES + ['PP.Props.Values', 'PP.Spec.Tokens', 'PP.Proofs.Toks', 'PP.Proofs.ToksStr', 'PP.Proofs.ToksComb', 'PP.Proofs.ToksVal', 'PP.Proofs.Shown', 'PP.Proofs.NoBite', 'PP.Props.C03', 'PP.Props.Limits', 'PP.Props.NoLimit'],
         'sections': [{'name': 'truncation', 'run': values_sec('truncation_section')},
                      {'name': 'tokens', 'run': values_sec('tokens_section', limits=True)}],
         'trusted': VALUE_TRUSTED,
         'rule': 'container trees x max_seq_len in {1..maxlen+1, None}',
     },
     'C11': {
-        'theorems': ['PP.Limits.limits_tokens', 'PP.Limits.shown_canon', 'PP.Tok.shown_ok', 'PP.Tok.wf_shown', 'PP.C03.output_tokens',
+        'theorems': ['PP.Limits.limits_tokens', 'PP.Limits.limit_that_does_not_bite', 'PP.Limits.shown_canon', 'PP.Tok.shown_ok', 'PP.Tok.wf_shown', 'PP.C03.output_tokens',
                      'PP.C04.sound_pformat', 'PP.C11.depth_zero_placeholder', 'PP.C11.unlimited_never_zero'],
-        'modules': VALUE_MODULES + ['PP.Props.Values', 'PP.Spec.Tokens', 'PP.Proofs.Toks', 'PP.Proofs.ToksStr', 'PP.Proofs.ToksComb', 'PP.Proofs.ToksVal', 'PP.Proofs.Shown', 'PP.Props.C03', 'PP.Props.Limits'],
+        'modules': VALUE_MODULES + ['PP.Props.Values', 'PP.Spec.Tokens', 'PP.Proofs.Toks', 'PP.Proofs.ToksStr', 'PP.Proofs.ToksComb', 'PP.Proofs.ToksVal', 'PP.Proofs.Shown', 'PP.Proofs.NoBite', 'PP.Props.C03', 'PP.Props.Limits', 'PP.Props.NoLimit'],
         'sections': [{'name': 'depth', 'run': values_sec('depth_section')},
                      {'name': 'tokens', 'run': values_sec('tokens_section', limits=True)}],
         'trusted': VALUE_TRUSTED,
